@@ -65,6 +65,7 @@ pub fn kind_of(s: &str) -> io::ErrorKind {
         "ConnectionReset" => io::ErrorKind::ConnectionReset,
         "WriteZero" => io::ErrorKind::WriteZero,
         "Eof" => EOF_MARK,
+        "Interrupted" => io::ErrorKind::Interrupted,
         _ => panic!("bad kind {s}"),
     }
 }
